@@ -44,6 +44,18 @@ def generate(rng, tier):
             emit(g)
     for s in corpus.random_strings(rng, 400 if thorough else 60):
         emit(s, False)
+    # the blocks to load lie beyond 64 KiB / 128 KiB in the file (two maximal comment blocks first)
+    from vlib.skyb import make_file, rand_bytes
+    from vlib.gen_traj import traj_block, yaw_block
+    from vlib.gen_lights import program
+    from vlib.gen_rth import plan
+    for ver, cks in ((1, False), (2, True)):
+        tb, _ = traj_block(rng, nseg=3, scale=10)
+        yb, _ = yaw_block(rng, n=3)
+        rp, _, _ = plan(rng, well_formed=True)
+        big = make_file([(3, rand_bytes(rng, 65535)), (3, rand_bytes(rng, 65535)), (1, tb), (2, program(rng)), (5, yb), (4, rp)], ver, cks)
+        emit(big)
+        emit(big[:-2])
     return out
 
 
